@@ -165,16 +165,27 @@ def structure_rules(ctx):
         ok, why = g_in_function_call(ctx, F, vfc, None)
         rep.ob("C19.R4", "flag-only-around-callee-name", ok, why, vfc.loc(), how="true; visit name; false; then the arguments")
         rep.analysed(vvn)
-        mcs = [(bi, t) for bi, t in vvn.calls() if callee_def(t) == MP + "::match_or_update"]
-        thens = [(bi, t) for bi, t in vvn.calls() if is_callee(t, "core::bool::<impl bool>::then")]
-        ok = len(mcs) == 1 and len(thens) == 1 and flows_into(vvn, mcs[0][0], thens[0][1]["args"][0])
-        line_ok = False
-        for cf in F.closures_of(vvn):
-            for bi, t in cf.calls():
-                if t["callee"].get("name") == "line":
-                    line_ok = True
-        rep.ob("C19.R4", "diag-iff-match-at-line-of-mention", ok and line_ok, "" if ok and line_ok else "visit_variable_name does not build the diagnostic exactly when match_or_update reports, with n.line()", vvn.loc(),
-               how="match_or_update(n).then(|| build_diag(n, n.line()))")
+        # outcome table by KIND (whatever idiom: then/unwrap_or_default, if/else, match): a diagnostic for (this name, the line of
+        # this mention) exactly when match_or_update reports, nothing otherwise
+        def m_mu(I_, f, st, t, args, depth):
+            yield kc(True), None, ((("match",), "T"),)
+            yield kc(False), None, ((("match",), "F"),)
+
+        def m_bd(I_, f, st, t, args, depth):
+            yield ("call", "diag", tuple(kind._short(a_) for a_ in args)), None, ()
+
+        def m_line(I_, f, st, t, args, depth):
+            yield ("call", "line", (kind._short(args[0]),)), None, ()
+        I2 = kind.Interp(F, models={MP + "::match_or_update": m_mu, "linter::passes::missed_pronoun::build_diag": m_bd, "frontend::source_range::Line::line": m_line})
+        n_ = E("frontend::ast::WithRange", "WithRange", ("sym", "name"), ("sym", "range"))
+        got = set()
+        for o in I2.run(vvn, [("sym", "self"), n_]):
+            m_ = [tk for ct, tk in o.conds if ct == ("match",)]
+            got.add((m_[0] if m_ else "-", kt.term(o.ret)))
+        want = {("T", "Ok(diag(name,line(WithRange(name,range))))"), ("F", "Ok(Empty)")}
+        ok = got == want and not I2.incomplete
+        rep.ob("C19.R4", "diag-iff-match-at-line-of-mention", ok, "" if ok else "visit_variable_name yields %s; the rule is: the diagnostic for (this name, the line of this mention) exactly when match_or_update reports, else nothing" % sorted(got), vvn.loc(),
+               how="match -> Ok(build_diag(name, n.line())), no match -> Ok(Empty)")
 
 
 _c19_census = c19
